@@ -405,6 +405,16 @@ func marshalPrim(p string, rv reflect.Value, w restlicodec.Writer) error {
 
 // Unmarshal decodes a value of schema type t from r and returns it (GoType(t), addressable) together
 // with the decoder's error. The value is returned even when err != nil (partially filled).
+// UnmarshalInto decodes into an EXISTING value of a named type (a reused variable, a struct decoded twice): dst is a
+// pointer to the value.
+func UnmarshalInto(dst reflect.Value, r restlicodec.Reader) error {
+	u, ok := dst.Interface().(restlicodec.Unmarshaler)
+	if !ok {
+		panic(fmt.Sprintf("dyn: %s is not an Unmarshaler", dst.Type()))
+	}
+	return u.UnmarshalRestLi(r)
+}
+
 func Unmarshal(s *schema.Schema, t schema.Type, r restlicodec.Reader) (reflect.Value, error) {
 	switch {
 	case t.Prim != "":
